@@ -131,6 +131,9 @@ type Config struct {
 	SlowDelay  time.Duration
 	DelayProb  float64 // probability that a call is delayed at all
 	Logger     *zap.Logger
+	// RPCTimeout: how long a caller waits for an answer (default 2 s; the real client waits
+	// 10 s with maintenance intervals about a thousand times longer than the simulator's)
+	RPCTimeout time.Duration
 	KeepLog    bool
 	NewKV      func(id uint64) (chord.KVProvider, func()) // nil = memory
 }
@@ -148,6 +151,7 @@ type Net struct {
 	inflight atomic.Int64
 	cleanup  []func()
 	Panics   atomic.Int64
+	Timeouts atomic.Int64 // calls given up by the caller after RPCTimeout
 	panicMu  sync.Mutex
 	PanicLog []string
 }
@@ -164,6 +168,9 @@ func New(cfg Config) *Net {
 	}
 	if cfg.Logger == nil {
 		cfg.Logger = zap.NewNop()
+	}
+	if cfg.RPCTimeout == 0 {
+		cfg.RPCTimeout = 2 * time.Second
 	}
 	return &Net{cfg: cfg, members: map[uint64]*Member{}, rng: rand.New(rand.NewSource(cfg.Seed))}
 }
@@ -440,7 +447,21 @@ func (n *Net) invoke(owner, target uint64, method, arg string, fn func(t *rchord
 		res, err := fn(m.Node)
 		ch <- result{res, err}
 	}()
-	r := <-ch
+	// The real client gives up after rpcTimeout (10 s) while the server goes on processing the
+	// request. Some lock cycles of the code under test are only ever broken by that timeout
+	// (a KV request forwarded to the surrogate is sent while the forwarding node holds its KV
+	// barrier; if the surrogate is handing its keys back to that node at the same moment, both
+	// wait for each other until the forwarded call times out). Without it the simulated ring
+	// would hang for ever where the real one stalls for a while.
+	var r result
+	tm := time.NewTimer(n.cfg.RPCTimeout)
+	select {
+	case r = <-ch:
+		tm.Stop()
+	case <-tm.C:
+		n.Timeouts.Add(1)
+		return finish("", context.DeadlineExceeded)
+	}
 	if gate != nil && gate.After {
 		close(gate.reached)
 		<-gate.release
